@@ -5,12 +5,6 @@ cd "$(dirname "$0")"
 export GOFLAGS=-mod=mod GOPROXY=off GOSUMDB=off GOTOOLCHAIN=local
 mkdir -p bin evidence replays
 (cd tools && go1.26.8 build -o ../bin/instrument ./instrument && go1.26.8 build -o ../bin/vcheck ./vcheck)
-# warm the cache: instrument the current tree and compile the harness once
-S=$(mktemp -d)
-trap 'rm -rf "$S"' EXIT
-cp /repo/go.sum harness/go.sum
-D=$(cd harness && go1.26.8 list -m -f '{{.Dir}}' github.com/zishang520/engine.io-go-parser)
-./bin/instrument -repo /repo -out "$S" -tick "$D/parser,$D/utils" >/dev/null
-cp /repo/go.sum harness/go.sum
-(cd harness && go1.26.8 test -c -tags verif -overlay "$S/overlay.json" -vet=off -o "$S/harness.test" .)
+# warm the cache: instrument the current tree and compile the harness once (same steps as a check)
+./bin/vcheck --warm quick
 echo "setup ok"
